@@ -256,6 +256,40 @@ pub fn run(ctx: &Ctx) -> Report {
                         push(&mut o, &wf, vs);
                     }
                 }
+                // the key service fails while a stored setup is being loaded whose OTHER key slot
+                // (the stand-in key, never behind the interface) is unusable as well: the caller
+                // must still be told about the key service's failure
+                let stored = rh.events.iter().zip(h.ops.iter()).find_map(|(e, op)| match (op, &e.res) {
+                    (Op::NewSetup { .. } | Op::NewSetupWithKey { .. }, Ok(outs)) => outs.iter().find(|x| x.0 == "setup").map(|x| x.1 .0.clone()),
+                    _ => None,
+                });
+                let lens = s.lens();
+                if let (Some(mut bytes), Some(pos)) = (stored, h.ops.iter().position(|op| matches!(op, Op::LoginRespond { .. }))) {
+                    if bytes.len() == lens.nh + 2 * lens.nsk {
+                        for b in bytes[lens.nh + lens.nsk..].iter_mut() {
+                            *b = 0;
+                        }
+                        let mut wz = h.clone();
+                        wz.ops.truncate(pos + 1);
+                        if let Some(Op::LoginRespond { setup, .. }) = wz.ops.last_mut() {
+                            *setup = Ref::Lit { kind: crate::suite::Kind::SetupHsm, codec: Codec::Native, bytes: bytes.into() };
+                        }
+                        for n in 1..=2 {
+                            let mut wf = wz.clone();
+                            wf.faults = vec![Fault::HsmFailAt { op: pos, call: n }];
+                            wf.knobs.hsm_err_flavour = ((k as usize + kind + n) % 5) as u8;
+                            wf.note = format!("{} stored setup with an unusable stand-in key, key service failing at call {n} of the load", w.note);
+                            let rf = run_world(&wf);
+                            o.evals += 1;
+                            o.faults_planned += 1;
+                            let fired = rf.events.get(pos).map(|e| e.fault_fired).unwrap_or(false);
+                            if fired {
+                                let vs: Vec<Violation> = rf.violations.iter().filter(|x| matches!(x.clause, "panic" | "seam_error_swallowed" | "seam_error_wrong_kind")).cloned().collect();
+                                push(&mut o, &wf, vs);
+                            }
+                        }
+                    }
+                }
             }
         }
         o
